@@ -28,10 +28,11 @@ ASSUMPTIONS = ["Director's code-generation scheme is the one written in SpecLing
 LEVEL_TEXT = ('Proof: Coq theorems over a hand-written model of the decompiler (stack machine dispatching through tables regenerated '
               'from the source, both generators): for every expression tree and straight-line statement list of the modelled '
               'families, running the compiled bytes yields exactly the reified tree (induction over the tree, any depth/width), '
-              'its text is the canonical print of the source and parses back to it. Tie: the model agrees with /repo on the text '
+              'its text is the canonical print of the source and parses back to it; for every exit-free nest of if / if-else / repeat while '
+              '(any depth) the emitted text is the canonical layout of the source program (C02_structured_text_is_canonical, on the C03 theorem). Tie: the model agrees with /repo on the text '
               'of every fixture and every generated program; the implementation\'s text is parsed back independently.')
 LEVEL_NOTE = 'Families outside the proved core ("the" properties, chunk expressions, put/delete/hilite, tell, factories) are covered by the correspondence and the parser oracle only.'
-TECHNIQUE = 'Coq proof by induction over the expression tree (compile / symbolic-execute inversion, printer/parser round trip) + model/implementation correspondence'
+TECHNIQUE = 'Coq proof by induction over the expression tree and the program structure (compile / symbolic-execute inversion, printer/parser round trip, structured layout) + model/implementation correspondence'
 
 def gen_cases(rng, tier):
     for s in H.pair_scripts(rng):
